@@ -141,7 +141,7 @@ def verifyBitwise (c : CrcConfig) (bits : Bits) (expected : Int) : Bool :=
 
 /-- `verify_checksum(data, expected_checksum)` (table calculator) -/
 def verifyTable (c : CrcConfig) (le : Bool) (bits : Bits) (expected : Int) : Except CrcErr Bool :=
-  (calcTable c le bits).map (fun r => (bitsToNat r : Int) == expected)
+  (calcTable c le bits).map (fun (r : Bits) => (bitsToNat r : Int) == expected)
 
 /-! ### front ends (parameterised by the calculator singleton `CALC` and the mask value) -/
 
@@ -171,7 +171,7 @@ def crc8With (cal : Calc) (le : Bool) (data : Bits) : Except CrcErr Nat :=
 def crc8CheckWith (cal : Calc) (le : Bool) (data : Bits) (crc : Int) :
     Except CrcErr Bool :=
   if crc < 0 ∨ 255 < crc then .error .assertionError
-  else (crc8With cal le data).map (fun v => (v : Int) == crc)
+  else (crc8With cal le data).map (fun (v : Nat) => (v : Int) == crc)
 
 /-- `CRC16.calculate(data, mask)` = `ba2int(~checksum(bytes_to_bits(data))) ^ mask.value` -/
 def crc16With (cal : Calc) (data : Bytes) (mask : Nat) : Except CrcErr Nat :=
@@ -181,7 +181,7 @@ def crc16With (cal : Calc) (data : Bytes) (mask : Nat) : Except CrcErr Nat :=
 def crc16CheckWith (cal : Calc) (data : Bytes) (crc : Int) (mask : Nat) :
     Except CrcErr Bool :=
   if crc < 0 ∨ 65535 < crc then .error .assertionError
-  else (crc16With cal data mask).map (fun v => (v : Int) == crc)
+  else (crc16With cal data mask).map (fun (v : Nat) => (v : Int) == crc)
 
 /-- the `crc32` argument of `CRC9.calculate_from_parts` -/
 inductive Crc32Arg where
@@ -222,7 +222,7 @@ def crc9With (cal : Calc) (data : Bytes) (serial : Int) (mask : Nat)
 def crc9CheckWith (cal : Calc) (data : Bytes) (serial : Int) (crc : Int)
     (mask : Nat) (crc32 : Crc32Arg) : Except CrcErr Bool :=
   if 511 < crc then .error .assertionError
-  else (crc9With cal data serial mask crc32).map (fun v => (v : Int) == crc)
+  else (crc9With cal data serial mask crc32).map (fun (v : Nat) => (v : Int) == crc)
 
 /-- `CRC32.calculate(data)` = `ba2int(checksum(bytes_to_bits(byteswap_bytes(data), "little")))` -/
 def crc32With (cal : Calc) (data : Bytes) : Except CrcErr Nat :=
@@ -231,7 +231,7 @@ def crc32With (cal : Calc) (data : Bytes) : Except CrcErr Nat :=
 /-- `CRC32.check(data, crc32)` -/
 def crc32CheckWith (cal : Calc) (data : Bytes) (crc : Int) : Except CrcErr Bool :=
   if crc < 0 ∨ 4294967295 < crc then .error .assertionError
-  else (crc32With cal data).map (fun v => (v : Int) == crc)
+  else (crc32With cal data).map (fun (v : Nat) => (v : Int) == crc)
 
 end Crc
 end Dmr
